@@ -188,6 +188,51 @@ class DatasetRef(object):
         return out
 
 
+def reference_cluster_waveforms(R, sc, stemplates, T, nsw, nc):
+    """Cluster waveforms by the statement of C08, from the ground truth: returns
+    (candidates, ambiguous) where candidates[c] is a list of admissible (nsw, nc) arrays (several
+    when spike counts tie: any tied template may be the dominant one) and ambiguous is the set of
+    cluster ids whose channel lists cannot be decided (distance ties, threshold hit exactly)."""
+    sc = np.asarray(sc)
+    stemplates = np.asarray(stemplates)
+    nmax = int(sc.max()) + 1
+    cands = {}
+    ambiguous = set()
+    for c in range(nmax):
+        tids = sorted(set(int(t) for t in stemplates[sc == c]))
+        if not tids:
+            cands[c] = [np.zeros((nsw, nc))]
+            continue
+        if len(tids) == 1:
+            cands[c] = [np.asarray(T[tids[0]], dtype=np.float64)]
+            continue
+        counts = {t: int(((sc == c) & (stemplates == t)).sum()) for t in tids}
+        top = max(counts.values())
+        dom = [t for t in tids if counts[t] == top]
+        lists = {}
+        for t in tids:
+            s_ = R.dense_channel_sets(t, unwhiten=False)
+            if s_ is None or s_[1]:
+                ambiguous.add(c)
+                break
+            lists[t] = s_[0]
+        if c in ambiguous:
+            continue
+        tot = float(sum(counts.values()))
+        out = []
+        for d0 in dom:
+            exp = np.zeros((nsw, nc))
+            for ch in lists[d0]:
+                acc = np.zeros(nsw)
+                for t in tids:
+                    if ch in lists[t]:
+                        acc += counts[t] * np.asarray(T[t], dtype=np.float64)[:, ch]
+                exp[:, ch] = acc / tot
+            out.append(exp)
+        cands[c] = out
+    return cands, ambiguous
+
+
 def pca_projection_ok(waveforms, got, rtol=2e-3):
     """Are `got` (n, nc, 3) the projections of each waveform onto the three leading principal
     components of each channel, up to the sign of each component? Returns True / False / None
